@@ -143,6 +143,10 @@ impl Frame {
             Some(TargetAddress::DomainPort(host, _)) if host.len() + 2 > u8::MAX as usize => Err(
                 IoError::new(ErrorKind::InvalidInput, "host name too long for a frame"),
             ),
+            Some(addr) if addr.has_zone() => Err(IoError::new(
+                ErrorKind::InvalidInput,
+                "an address with a zone can not be sent in a frame",
+            )),
             _ => Ok(()),
         }
     }
